@@ -106,6 +106,15 @@ func flowsFrom(P *core.Program, v ssa.Value, leaf func(ssa.Value) bool, seen map
 			}
 			return false
 		}
+		// path arithmetic of the standard library: the result is made of its arguments
+		if callee := x.Call.StaticCallee(); callee != nil && callee.Pkg != nil && (callee.Pkg.Pkg.Path() == "path/filepath" || callee.Pkg.Pkg.Path() == "path") {
+			for _, a := range x.Call.Args {
+				if flowsFrom(P, a, leaf, seen, depth+1) {
+					return true
+				}
+			}
+			return false
+		}
 		// an in-repository helper that chooses between its arguments (`laterOf(a, b string) string`)
 		if callee := x.Call.StaticCallee(); callee != nil && callee.Blocks != nil && P.SPkgs[core.PkgPathOf(callee)] != nil {
 			if _, isStr := x.Type().Underlying().(*types.Basic); isStr {
